@@ -149,3 +149,7 @@ IM(c) == c \o "_im"
 CondNoSpurious == \A c \in Conds : cvreleased[c] <= cvclaimed[c]
 CondGhostOK == cvbad = ""
 CondNoLostSignal == Quiescent => \A c \in Conds : cvclaimed[c] = cvreleased[c]
+\* diagnostic, not part of C05 and not in any scenario's invariant list: fiber_manager_do_maintenance
+\* still works on the manager it captured at entry after fiber_mutex_unlock_internal yielded and the
+\* fiber migrated (DESIGN.md 11.8); use as INVARIANT to obtain a witness of that situation
+MaintOnEntryThread == \A f \in Fibers : (OnCpu(f) /\ pc[f] \in {"m5", "m6", "m6b"}) => mm[f] = ThreadOf(f)
